@@ -8,7 +8,7 @@ from .scan import ALPHABET, in_alphabet, mk_input, ref_skip, parse_outcome
 
 ROOTS = list(scan.ROOTS)
 ASSUMPTIONS = [
-    "claimed for the scanners only: skip_ws_and_comments (through the non-generic parsers extension_marker / assignment / optional_comma), line_comment and block_comment are executed from real MIR - nom's generic combinators included - on every string of <= 4 (thorough 5) symbolic characters over {space, tab, LF, CR, '-', '/', '*', 'a'} (plus a concrete 2-byte character in comments); the reference is an independent z3 automaton for X.680 12.6",
+    "claimed for the scanners only: skip_ws_and_comments (through the non-generic parsers extension_marker / assignment / optional_comma), line_comment and block_comment are executed from real MIR - nom's generic combinators included - on every string of <= 4 (thorough 5) symbolic characters over {space, tab, LF, CR, '-', '/', '*', 'a', double quote} (plus a concrete 2-byte character in comments); the reference is an independent z3 automaton for X.680 12.6",
     "that every one of the several hundred combinator call sites of the lexer wraps its tokens in skip_ws_and_comments is not decided (character-level whole-grammar parsing is out of reach); a native job re-lays-out a fixed set of modules token boundary by token boundary as a concrete complement",
     "nom's leaf impls for &str are modelled (no MIR for non-generic dependency functions)",
 ]
@@ -152,7 +152,7 @@ def job_block(prog, chk, n, tier):
     fn = prog.find(scan.BLOCK_COMMENT)
     input_ty = prog.inst[fn]['locals'][1]
     w = [z3.BitVec(f"w{i}", 32) for i in range(n)]
-    alphabet = [47, 42, 97, 10]
+    alphabet = [47, 42, 97, 10, 34]
 
     def run(ex):
         for c in w:
@@ -208,8 +208,8 @@ def job_native(prog, chk, tier, seed):
     import re, random
     rnd = random.Random(seed)
     runner = native.Runner()
-    mods = ["M DEFINITIONS AUTOMATIC TAGS ::= BEGIN A ::= SEQUENCE { a INTEGER (0..5) OPTIONAL, b BOOLEAN DEFAULT TRUE, ..., c NULL } B ::= CHOICE { x A, y [3] IMPLICIT OCTET STRING (SIZE (4)) } v INTEGER ::= 5 E ::= ENUMERATED { p(1), q, ..., r } END"]
-    fillers = [' ', '\t', '\n', '\r\n', '  \n ', ' -- c\n', ' -- c -- ', ' /* c */ ', ' /* a /* b */ c */ ', ' -- "{ END é\n', '/* -- */']
+    mods = ["M DEFINITIONS AUTOMATIC TAGS ::= BEGIN A ::= SEQUENCE { a INTEGER (0..5) OPTIONAL, b BOOLEAN DEFAULT TRUE, ..., c NULL } B ::= CHOICE { x A, y [3] IMPLICIT OCTET STRING (SIZE (4)) } v INTEGER ::= 5 E ::= ENUMERATED { p(1), q, ..., r } s UTF8String ::= \"x\" END"]
+    fillers = [' ', '\t', '\n', '\r\n', '  \n ', ' -- c\n', ' -- c -- ', ' /* c */ ', ' /* a /* b */ c */ ', ' -- "{ END é\n', '/* -- */', ' /* 3.5" */ ', ' /* "a" */ ']
     try:
         for mod in mods:
             base = runner.compile(mod)
